@@ -189,10 +189,39 @@ class NamespaceFunction(Namespace[symtable.Function]):
                 value=value_expr,
             )
 
+    def _is_shadowed_global(self, name: str) -> bool:
+        """
+        Whether `name` is declared global in this function
+        while an outer function has a local variable with the same name.
+        (A plain name would load the local variable of the outer function)
+        """
+        try:
+            if not self.symt.lookup(name).is_declared_global():
+                return False
+        except KeyError:
+            return False
+        outer = self.outer_nsp
+        while not isinstance(outer, NamespaceGlobal):
+            if isinstance(outer, NamespaceFunction):
+                try:
+                    if outer.symt.lookup(name).is_local():
+                        return True
+                except KeyError:
+                    pass
+            outer = outer.outer_nsp
+        return False
+
     def get_load_name(self, name: str) -> expr:
         for comp in self.comp_stack:
             if name in comp.target_names:
                 return Name(id=name, ctx=Load())
+
+        if self._is_shadowed_global(name):
+            return Subscript(
+                value=Call(func=Name(id="globals", ctx=Load()), args=[], keywords=[]),
+                slice=Constant(value=name),
+                ctx=Load(),
+            )
 
         if name in self.inner_nonlocal_names:
             return Subscript(
